@@ -533,6 +533,10 @@ func RunFollowerClose(c *Cluster) (caughtUp bool) {
 			break
 		}
 	}
+	if !caughtUp && c.viol == nil && n.up {
+		c.chk.count("lv.follower_catchup")
+		c.chk.report("C15", "lv.follower_catchup", n, fmt.Sprintf("with faults stopped and a stable leader sending, the node did not catch up: commit %d applied %d state machine %d, group committed %d", n.st.Committed, n.st.Applied, n.app.cur.Index, g.commitMax()), "")
+	}
 	if caughtUp && c.viol == nil {
 		c.chk.count("vs.final")
 		want, _ := decodeAppState(g.stateAt[g.commitMax()], nil)
@@ -559,4 +563,12 @@ func (g *VGroup) dump() string {
 		s += "\n"
 	}
 	return s
+}
+
+// CloseDebug describes why the closing phase did not catch up (diagnostics).
+func (c *Cluster) CloseDebug() string {
+	if c.vg == nil {
+		return ""
+	}
+	return c.vg.dump() + c.DebugState()
 }
